@@ -263,7 +263,8 @@ def edit_distance(pinned: list[str], current: list[str]) -> int:
 #   when one operand is a numeric constant or a product/quotient/power (numeric context — never for possible sequence/str concatenation);
 #   operands of `and`/`or` are NOT reordered (short-circuit);  np.newaxis → None;  range(0, n) → range(n);
 #   function form → method form for a fixed table of reductions / elementwise functions (np.sum(x, …) → x.sum(…), torch.abs(x) → x.abs(), …)
-#   and x ** 2 / np.square(x) → x.square();  `if not c: A else: B` → `if c: B else: A`.
+#   and x ** 2 / np.square(x) → x.square();  `if not c: A else: B` / `if a != b: A else: B` → the positive test with swapped arms (also for conditional
+#   expressions);  a local bound once and used once, in the very next statement, is substituted into that statement (named intermediate ≡ inline).
 _TO_METHOD = {"sum", "mean", "abs", "sqrt", "exp", "conj", "angle", "square", "max", "min", "prod", "clip", "clamp", "round", "floor", "ceil", "flatten", "ravel", "reshape",
               "argmax", "argmin", "argsort", "cumsum", "all", "any", "std", "var", "transpose", "squeeze", "unsqueeze"}
 _LIB_PREFIXES = ("np.", "numpy.", "torch.", "xp.", "cp.")
@@ -333,16 +334,81 @@ class _Canon(ast.NodeTransformer):
             return ast.Call(func=ast.Attribute(value=n.args[0], attr=d.split(".")[1], ctx=ast.Load()), args=n.args[1:], keywords=n.keywords)
         return n
 
+    _NEG = {ast.NotEq: ast.Eq, ast.IsNot: ast.Is, ast.NotIn: ast.In}
+
+    def _positive_test(self, t):
+        """(test', flipped?) with a negated test turned into its positive form"""
+        if isinstance(t, ast.UnaryOp) and isinstance(t.op, ast.Not):
+            return t.operand, True
+        if isinstance(t, ast.Compare) and len(t.ops) == 1 and type(t.ops[0]) in self._NEG:
+            return ast.Compare(left=t.left, ops=[self._NEG[type(t.ops[0])]()], comparators=t.comparators), True
+        return t, False
+
     def visit_If(self, n):
         self.generic_visit(n)
-        if isinstance(n.test, ast.UnaryOp) and isinstance(n.test.op, ast.Not) and n.orelse and not (len(n.orelse) == 1 and isinstance(n.orelse[0], ast.If)):
-            n.test, n.body, n.orelse = n.test.operand, n.orelse, n.body
+        if n.orelse and not (len(n.orelse) == 1 and isinstance(n.orelse[0], ast.If)) and not (len(n.body) == 1 and isinstance(n.body[0], ast.If) and n.body[0].orelse):
+            t, flipped = self._positive_test(n.test)
+            if flipped:
+                n.test, n.body, n.orelse = t, n.orelse, n.body
         return n
+
+    def visit_IfExp(self, n):
+        self.generic_visit(n)
+        t, flipped = self._positive_test(n.test)
+        if flipped:
+            n.test, n.body, n.orelse = t, n.orelse, n.body
+        return n
+
+    def _inline_single_use(self, body: list) -> list:
+        """`t = e` immediately followed by the only use of t (t bound exactly once in the function): substitute and drop the assignment."""
+        out = list(body)
+        i = 0
+        while i + 1 < len(out):
+            s1, s2 = out[i], out[i + 1]
+            if isinstance(s1, ast.Assign) and len(s1.targets) == 1 and isinstance(s1.targets[0], ast.Name) and s1.targets[0].id in self.single_use \
+                    and not isinstance(s2, (ast.FunctionDef, ast.AsyncFunctionDef, ast.ClassDef, ast.For, ast.While, ast.Try, ast.With)):
+                t = s1.targets[0].id
+                header = s2.test if isinstance(s2, ast.If) else s2
+                uses = [x for x in ast.walk(header) if isinstance(x, ast.Name) and x.id == t and isinstance(x.ctx, ast.Load)]
+                if len(uses) == 1:
+                    val = s1.value
+
+                    class R(ast.NodeTransformer):
+                        def visit_Name(self, x):
+                            return val if (x.id == t and isinstance(x.ctx, ast.Load)) else x
+                    if isinstance(s2, ast.If):
+                        s2.test = R().visit(s2.test)
+                    else:
+                        out[i + 1] = R().visit(s2)
+                    del out[i]
+                    i = max(i - 1, 0)
+                    continue
+            i += 1
+        return out
+
+    def inline_pass(self, node):
+        """first pass: substitute single-use temporaries everywhere (before operands are ordered)"""
+        for sub in ast.walk(node):
+            for fld in ("body", "orelse", "finalbody"):
+                blk = getattr(sub, fld, None)
+                if isinstance(blk, list) and blk and isinstance(blk[0], ast.stmt):
+                    setattr(sub, fld, self._inline_single_use(blk) or [ast.Pass()])
+            for h in getattr(sub, "handlers", []) or []:
+                h.body = self._inline_single_use(h.body) or [ast.Pass()]
+        return node
 
 
 def canon_digest(fn: ast.AST) -> str:
     import copy
-    c = _Canon().visit(copy.deepcopy(fn))
+    from collections import Counter
+    cp = copy.deepcopy(fn)
+    stores = Counter(x.id for x in ast.walk(cp) if isinstance(x, ast.Name) and isinstance(x.ctx, (ast.Store, ast.Del)))
+    loads = Counter(x.id for x in ast.walk(cp) if isinstance(x, ast.Name) and isinstance(x.ctx, ast.Load))
+    cn = _Canon()
+    cn.single_use = {n for n in locals_of(cp) if stores[n] == 1 and loads[n] == 1} if isinstance(cp, (ast.FunctionDef, ast.AsyncFunctionDef)) else set()
+    if cn.single_use:
+        cp = cn.inline_pass(cp)
+    c = cn.visit(cp)
     ast.fix_missing_locations(c)
     return shape_of(c)[0]
 
